@@ -84,6 +84,8 @@ QJsonObject to_json(const FPlan &p)
         o["obstacle"] = p.obstacle;
     if (p.obstacle_gz)
         o["obstacle_gz"] = true;
+    if (p.decoy)
+        o["decoy"] = true;
     if (p.tz_min)
         o["tz_min"] = p.tz_min;
     if (p.pre_bytes) {
@@ -124,6 +126,7 @@ bool from_json(const QJsonObject &o, FPlan &p)
     p.sibling = o["sibling"].toString().toStdString();
     p.obstacle = o["obstacle"].toInt();
     p.obstacle_gz = o["obstacle_gz"].toBool();
+    p.decoy = o["decoy"].toBool();
     p.tz_min = o["tz_min"].toInt();
     p.pre_bytes = o["pre_bytes"].toInt();
     p.pre_age_days = o["pre_age_days"].toInt();
@@ -312,6 +315,8 @@ FPlan generate(const std::string &prop, const std::string &tier, uint64_t seed)
         p.obstacle = (int)r.range(1, 3);
     if (p.obstacle && (p.options & 4) && r.chance(1, 2))
         p.obstacle_gz = true;
+    if ((prop == "C05" || prop == "C07") && r.chance(1, 6))
+        p.decoy = true;
     {
         static const int tzs[] = { 0, 0, 0, 540, -300, 345, -720, 840 };
         p.tz_min = pick(r, tzs);
